@@ -78,10 +78,15 @@ Fixpoint take_le (cut : Z) (hs : list hdr) : list hdr :=
   | x :: r => if cut <? snd x then [] else x :: take_le cut r
   end.
 
+(** is the header to start after handed back itself? *)
+Definition prepend (ck : Z) (lp : hdr) : bool := (fst lp =? 1) || (ck <? fst lp).
+
 Definition find_fuel (st : store) : nat := S (S (length (s_times st))).
 
-(** findPruneableHeaders(lastPruned) *)
-Definition find (c : cfg) (st : store) (lp : hdr) : res (list hdr) :=
+(** findPruneableHeaders(lastPruned); [ck] is the checkpoint's LastPrunedHeight at the time of the call: the header to start
+    after is itself handed back when it is the genesis header or is not yet covered by the checkpoint (the header store's
+    tail after it moved past the checkpoint, fix-c14-2) *)
+Definition find (c : cfg) (st : store) (ck : Z) (lp : hdr) : res (list hdr) :=
   match head_of st with
   | None => Err
   | Some hd =>
@@ -93,7 +98,7 @@ Definition find (c : cfg) (st : store) (lp : hdr) : res (list hdr) :=
       else match get_range st (fst lp) (est + 1) with
            | None => Err
            | Some hs0 =>
-             let hs1 := if fst lp =? 1 then lp :: hs0 else hs0 in
+             let hs1 := if prepend ck lp then lp :: hs0 else hs0 in
              match extend (find_fuel st) c st cut hs1 with
              | Ok hs2 => Ok (take_le cut hs2)
              | Err => Err
